@@ -10,6 +10,7 @@ import (
 	"fmt"
 	"math/rand"
 	"reflect"
+	"sort"
 	"strconv"
 	"strings"
 	"sync"
@@ -84,7 +85,9 @@ type Encoder struct {
 	mu     sync.Mutex
 	Events [][]byte
 	FailAt int // fail the FailAt-th Encode (1-based); 0 = never
-	n      int
+	// Persistent: every Encode from the FailAt-th on fails (a broken output), not only that one
+	Persistent bool
+	n          int
 	// Point, when set, is called around every Encode (a scheduling point for
 	// controlled-schedule runs).
 	Point func() func()
@@ -99,7 +102,7 @@ func (e *Encoder) Encode(v any) error {
 	e.mu.Lock()
 	defer e.mu.Unlock()
 	e.n++
-	if e.FailAt != 0 && e.n == e.FailAt {
+	if e.FailAt != 0 && (e.n == e.FailAt || (e.Persistent && e.n > e.FailAt)) {
 		return ErrInjected
 	}
 	b, err := json.Marshal(v)
@@ -238,8 +241,8 @@ func (w *World) RealPid(p int) int {
 		default:
 			// a decimal extension of a pid already in use, if any
 			r = w.pidBase + p*w.pidStep
-			for _, q := range w.pidReal {
-				if q < 400000 {
+			for mp := 1; mp < 64; mp++ { // deterministic order (not map order): the same seed gives the same world
+				if q, ok := w.pidReal[mp]; ok && q < 400000 {
 					r = q*10 + w.rng.Intn(10)
 					break
 				}
@@ -269,7 +272,8 @@ func (w *World) RealSess(s string) string {
 		case 0: // edge values of the kernel's 32-bit session counter
 			r = []string{"0", "1", "4294967294", "2147483648", "65536"}[w.rng.Intn(5)]
 		case 1: // a decimal extension of a session id already in use
-			for _, q := range w.sessName {
+			for _, m := range w.sortedSess() {
+				q := w.sessName[m]
 				if len(q) > 0 && len(q) < 9 && q != "unset" {
 					r = q + strconv.Itoa(w.rng.Intn(10))
 					break
@@ -282,6 +286,28 @@ func (w *World) RealSess(s string) string {
 			return r
 		}
 	}
+}
+
+// someOtherSess returns the real id of a session other than s that the history has used so far, or "unset".
+func (w *World) someOtherSess(s string, tag int) string {
+	if tag%3 != 0 {
+		return "4294967295"
+	}
+	for _, m := range w.sortedSess() {
+		if m != s && m != "" && m != "unset" {
+			return w.sessName[m]
+		}
+	}
+	return "4294967295"
+}
+
+func (w *World) sortedSess() []string {
+	ks := make([]string, 0, len(w.sessName))
+	for m := range w.sessName {
+		ks = append(ks, m)
+	}
+	sort.Strings(ks)
+	return ks
 }
 
 func (w *World) ModelSess(r string) string {
@@ -386,6 +412,9 @@ func (w *World) MakeEvent(c Call) *aucoalesce.Event {
 	if c.Args {
 		ev.Process.Args = []string{"cmd", fmt.Sprintf("arg-%d", c.Tag)}
 	}
+	// free-form record data the correlator must not take identity decisions from: the previous session of the
+	// process (usually unset, sometimes another live session), the old login uid
+	ev.Data = map[string]string{"old-ses": w.someOtherSess(c.Sess, c.Tag), "old-auid": "4294967295", "tty": "(none)"}
 	w.events[c.Tag] = ev
 	return ev
 }
